@@ -141,7 +141,8 @@ def child_env(variant='asan', logbase=None, extra=None, hashseed='0'):
         env['LD_PRELOAD'] = asan_rt()
         env['PYTHONMALLOC'] = 'malloc'
         opts = 'detect_leaks=0:halt_on_error=0:abort_on_error=0:allocator_may_return_null=1:' \
-               'detect_stack_use_after_return=0:handle_segv=1:symbolize=1'
+               'detect_stack_use_after_return=0:handle_segv=1:symbolize=1:' \
+               'quarantine_size_mb=16:malloc_context_size=6'
         uopts = 'print_stacktrace=1:halt_on_error=0'
         if logbase:
             opts += ':log_path=' + logbase
